@@ -507,9 +507,12 @@ func writerPart(seed int64) {
 			if tooManyStuck() {
 				return
 			}
-			if only("wclose", n) {
+			if only("wclose", n) || only("wtrace", n) {
+				kafka.VerifStart()
 				op, impl := steered(kind, scRand(seed, 1, n), uint64(seed)<<20+uint64(n))
+				evs := kafka.VerifStop()
 				emitSc(n, op, impl)
+				emitWriterHooks(n, evs, impl)
 			}
 		}
 	}
@@ -518,9 +521,74 @@ func writerPart(seed int64) {
 		if tooManyStuck() {
 			return
 		}
-		if only("wclose", n) {
+		if only("wclose", n) || only("wtrace", n) {
+			kafka.VerifStart()
 			op, impl := randomScenario(scRand(seed, 1, n), uint64(seed)<<20+uint64(n))
+			evs := kafka.VerifStop()
 			emitSc(n, op, impl)
+			emitWriterHooks(n, evs, impl)
 		}
 	}
+}
+
+// emitWriterHooks renders the W.* PW.* Q.* B.* hook events of one Writer scenario (placed by the writer builder inside
+// the critical sections they name) as a `wtrace` line: E<0|1> enter, L a call left (returned / empty / rejected before
+// batching), P<pw>:<q> new partition writer with its queue, N<b> new batch, A<b> produce attempt, K<b> Completion
+// callback, C<b> batch completed, G<q>:<b|nil> Get (nil = the sender goroutine exits), XB XM XR Close begin / marked /
+// returned.  Only emitted when Close returned (a stuck Close is reported by the `wclose` line).
+func emitWriterHooks(n int, evs []kafka.VerifEvent, impl string) {
+	if !strings.Contains(impl, "close=ret") {
+		return
+	}
+	ids := map[string]map[string]int{"p": {}, "q": {}, "b": {}}
+	id := func(kind, raw string) int {
+		m := ids[kind]
+		if _, ok := m[raw]; !ok {
+			m[raw] = len(m) + 1
+		}
+		return m[raw]
+	}
+	var toks []string
+	for _, e := range evs {
+		a := e.Args
+		switch e.Kind {
+		case "W.Enter":
+			if a[1] == "true" {
+				toks = append(toks, "E1")
+			} else {
+				toks = append(toks, "E0")
+			}
+		case "W.Empty", "W.Return":
+			toks = append(toks, "L")
+		case "W.Reject":
+			if a[1] != "closed" { // the closed rejection is followed by W.Return
+				toks = append(toks, "L")
+			}
+		case "W.NewPW":
+			toks = append(toks, fmt.Sprintf("P%d:%d", id("p", a[1]), id("q", a[2])))
+		case "PW.NewBatch":
+			toks = append(toks, fmt.Sprintf("N%d", id("b", a[1])))
+		case "PW.Attempt":
+			toks = append(toks, fmt.Sprintf("A%d", id("b", a[1])))
+		case "B.Completion":
+			toks = append(toks, fmt.Sprintf("K%d", id("b", a[1])))
+		case "B.Complete":
+			toks = append(toks, fmt.Sprintf("C%d", id("b", a[1])))
+		case "Q.Get":
+			if a[1] == "nil" {
+				toks = append(toks, fmt.Sprintf("G%d:nil", id("q", a[0])))
+			}
+		case "W.CloseBegin":
+			toks = append(toks, "XB")
+		case "W.CloseMarked":
+			toks = append(toks, "XM")
+		case "W.CloseReturn":
+			toks = append(toks, "XR")
+		}
+	}
+	tr := "-"
+	if len(toks) > 0 {
+		tr = strings.Join(toks, ";")
+	}
+	emitSc(n, "wtrace hk=1 "+tr, "ok")
 }
